@@ -1138,6 +1138,11 @@ class Interp:
             fc = self.cset.lookup_method(base.sort, attr)
             if fc is not None:
                 return VFn("bound", obj=base, name=attr, fc=fc)
+            ty = getattr(self.cset, "opaque_attrs", {}).get((base.sort, attr))
+            if ty == "int":
+                return VInt(z3.Function("attr_" + attr, usort(base.sort), z3.IntSort())(base.t))
+            if ty == "bool":
+                return VBool(z3.Function("attr_" + attr, usort(base.sort), z3.BoolSort())(base.t))
             if base.sort in ("Fn", "Any"):
                 # attribute of an unknown object (e.g. callback.__self__.name): some unknown value
                 f = z3.Function("attr_" + attr, usort(base.sort), usort("Any"))
